@@ -239,4 +239,44 @@ theorem C06_other_callbacks_silent (v : Val) (cb : TopCb) (s : State)
   | watch => unfold runTopCb; cases v <;> first | rfl | exact rep_emit (repCount s) _ s rfl
   | popProc wuid pid => rfl
 
+/-- **whatever a registered command raises** from `validate`/`execute` — any exception class; the
+    ladder of `dispatch` ends in a bare `except:`, so SystemExit, KeyboardInterrupt and GeneratorExit
+    are no exception — a request that is not a cast, from a connected client, gets exactly one
+    reply: status error, the request's own id, errno 3 / 5 / 4 for MessageError / ConflictError /
+    OSError and 5 for everything else; nothing else is observable -/
+theorem C06_raised_exactly_one_reply (cid : String) (j : JVal) (e : Exc) (s : State)
+    (ho : s.a.ctlClosed = false) (hb : s.blocked = false)
+    (hc : j.get? "msg_type" ≠ some (.str "cast")) :
+    (dispatchRaised (some cid) j e s).2.log =
+      s.log ++ [Obs.rep cid ((j.get? "id").getD .null) "error" (errnoOf e) "-"] := by
+  unfold dispatchRaised
+  have hcast : (match j.get? "msg_type" with | some (.str "cast") => true | _ => false) = false := by
+    split
+    · rename_i h; exact (hc h).elim
+    · rfl
+  simp only [hcast]
+  exact sendReply_exact cid _ _ _ _ s ho hb
+
+/-- … a cast stays unanswered and no reply is ever written twice, whatever was raised -/
+theorem C06_raised_at_most_one_reply (cid : Option String) (j : JVal) (e : Exc) (s : State) :
+    repCount (dispatchRaised cid j e s).2 ≤ repCount s + 1 := by
+  unfold dispatchRaised
+  exact sendReply_le _ _ _ _ _ _ s
+
+/-- the errno of the reply by exception class: only the three classes `dispatch` names get their
+    own number, every other class — inside or outside `Exception` — is a command error -/
+theorem C06_raised_errno (n : String) :
+    errnoOf (excOfClass "MessageError") = "3" ∧ errnoOf (excOfClass "ConflictError") = "5" ∧
+    errnoOf (excOfClass "OSError") = "4" ∧ errnoOf (excOfClass "SystemExit") = "5" ∧
+    errnoOf (excOfClass "KeyboardInterrupt") = "5" ∧
+    (errnoOf (excOfClass n) = "3" ∨ errnoOf (excOfClass n) = "4" ∨ errnoOf (excOfClass n) = "5" ∨ n = "unmodelled") := by
+  refine ⟨rfl, rfl, rfl, rfl, rfl, ?_⟩
+  unfold excOfClass
+  split <;> simp [errnoOf]
+  split <;> simp_all
+
+-- the hypotheses of `C06_raised_exactly_one_reply` on a concrete request
+example : (dispatchRaised (some "c0") (.obj [("id", .str "r2"), ("command", .str "set")]) (excOfClass "SystemExit")
+            (initState [] [] 0)).2.log = [Obs.rep "c0" (.str "r2") "error" "5" "-"] := by rfl
+
 end Circus.Core
